@@ -18,6 +18,10 @@ type c15Case struct {
 	UnknownAt int      `json:"unknown_at"`          // -1: all known; k: from level k on the nesting sits inside an unknown field
 	UnkShape  string   `json:"unk_shape,omitempty"` // struct | list | map
 	Trail     int      `json:"trail,omitempty"`
+	// Width: variable-length sibling fields written in every struct on the way down, in front of
+	// the field that nests further (known string/list/map fields for RecWide - ids repeat beyond
+	// 26 - unknown string fields for the other types). Depth is levels, not fields.
+	Width int `json:"width,omitempty"`
 }
 
 type shapeDef struct {
@@ -37,6 +41,11 @@ var c15Shapes = map[string]map[string]shapeDef{
 		"S": {[]byte{0x0c, 0, 1}, []byte{0}, 1},
 		"L": {[]byte{0x0f, 0, 2, 0x0c, 0, 0, 0, 1}, []byte{0}, 2},
 	},
+	"RecWide": {
+		"S": {[]byte{0x0c, 0, 1}, []byte{0}, 1},
+		"L": {[]byte{0x0f, 0, 2, 0x0c, 0, 0, 0, 1}, []byte{0}, 2},
+		"M": {[]byte{0x0d, 0, 3, 0x0b, 0x0c, 0, 0, 0, 1, 0, 0, 0, 1, 'k'}, []byte{0}, 2},
+	},
 	"RecMix": {
 		"S":   {[]byte{0x0c, 0, 1}, []byte{0}, 1},
 		"L":   {[]byte{0x0f, 0, 2, 0x0c, 0, 0, 0, 1}, []byte{0}, 2},
@@ -47,7 +56,7 @@ var c15Shapes = map[string]map[string]shapeDef{
 	},
 }
 
-var c15Types = []string{"RecS", "RecL", "RecSet", "RecMV", "RecMK", "RecLL", "RecH", "RecMix"}
+var c15Types = []string{"RecS", "RecL", "RecSet", "RecMV", "RecMK", "RecLL", "RecH", "RecMix", "RecWide", "RecWide"}
 
 var c15Depths = []int{1, 2, 3, 5, 8, 16, 31, 32, 33, 40, 47, 48, 49, 50, 63, 64, 65, 66, 100, 127, 128, 129, 200, 255, 256, 257, 340, 341, 342, 400, 511, 512, 513,
 	600, 682, 683, 767, 768, 769, 900, 1000, 1022, 1023, 1024, 1025, 1100, 2000, 5000, 10000, 100000, 1000000}
@@ -82,6 +91,12 @@ func genC15(t *rapid.T) c15Case {
 	if rapid.Bool().Draw(t, "trail") {
 		c.Trail = rapid.IntRange(1, 16).Draw(t, "ntrail")
 	}
+	if c.Depth <= 1100 && (c.Type == "RecWide" || rapid.IntRange(0, 3).Draw(t, "widen") == 0) {
+		c.Width = rapid.SampledFrom([]int{0, 1, 5, 20, 24, 26, 30, 40}).Draw(t, "width")
+		if c.Depth <= 3 && rapid.IntRange(0, 3).Draw(t, "flat") == 0 {
+			c.Width = rapid.SampledFrom([]int{1000, 1030, 1100, 3000}).Draw(t, "flatwidth") // one flat struct, a field repeated
+		}
+	}
 	return c
 }
 
@@ -95,9 +110,37 @@ func sortStrings(s []string) {
 	}
 }
 
+// c15Siblings: the sibling fields written at the start of every struct level.
+func c15Siblings(c c15Case, leaf bool) []byte {
+	var out []byte
+	for j := 0; j < c.Width; j++ {
+		if leaf && c.Type == "RecWide" && j%27 >= 24 {
+			// no containers in the innermost struct: they would be one level more
+			out = append(out, 0x0b, 0, 42, 0, 0, 0, 1, 'b')
+			continue
+		}
+		if c.Type != "RecWide" {
+			out = append(out, 0x0b, byte((2000+j%200)>>8), byte(2000+j%200), 0, 0, 0, 1, 'u')
+			continue
+		}
+		switch k := j % 27; {
+		case k < 24:
+			out = append(out, 0x0b, 0, byte(10+k), 0, 0, 0, 1, 'w')
+		case k == 24:
+			out = append(out, 0x0f, 0, 40, 0x0b, 0, 0, 0, 1, 0, 0, 0, 1, 'l')
+		case k == 25:
+			out = append(out, 0x0d, 0, 41, 0x08, 0x0b, 0, 0, 0, 1, 0, 0, 0, 7, 0, 0, 0, 1, 'm')
+		default:
+			out = append(out, 0x0b, 0, 42, 0, 0, 0, 2, 'b', 'b')
+		}
+	}
+	return out
+}
+
 // buildDeep synthesises the message and returns it with the number of levels it has.
 func buildDeep(c c15Case) ([]byte, int) {
 	shapes := c15Shapes[c.Type]
+	sib := c15Siblings(c, false)
 	var pre [][]byte
 	var suf [][]byte
 	levels := 0
@@ -120,11 +163,11 @@ func buildDeep(c c15Case) ([]byte, int) {
 			}
 			sd = smallest
 		}
-		pre = append(pre, sd.prefix)
+		pre = append(pre, append(append([]byte{}, sib...), sd.prefix...))
 		suf = append(suf, sd.suffix)
 		levels += sd.levels
 	}
-	var inner []byte
+	inner := c15Siblings(c, c.UnknownAt < 0)
 	if c.UnknownAt >= 0 {
 		// an unknown field (id 999) whose value nests the remaining levels
 		rem := c.Depth - levels
@@ -189,7 +232,7 @@ func buildDeep(c c15Case) ([]byte, int) {
 		levels += rem
 		inner = append(inner, 0) // STOP of the struct holding the unknown field
 	} else {
-		inner = []byte{0} // innermost struct: empty
+		inner = append(inner, 0) // innermost struct: no further nesting
 	}
 	n := len(inner)
 	for i := range pre {
@@ -255,8 +298,11 @@ func runC15(w *worker) func(c c15Case) *Failure {
 				mixed = true
 			}
 		}
-		w.count(levels >= 40 || mixed, fmt.Sprintf("%s|%v|%d|%d|%s", c.Type, c.Shapes, levels, c.UnknownAt, c.UnkShape), c,
-			"band:"+band, "position:"+pos, "type:"+c.Type)
+		labels := []string{"band:" + band, "position:" + pos, "type:" + c.Type}
+		if c.Width >= 20 {
+			labels = append(labels, "wide-levels:"+band)
+		}
+		w.count(levels >= 40 || mixed, fmt.Sprintf("%s|%v|%d|%d|%s|%d", c.Type, c.Shapes, levels, c.UnknownAt, c.UnkShape, c.Width), c, labels...)
 		return nil
 	}
 }
